@@ -82,6 +82,9 @@ def unit_transform():
         st.assume(n >= 0, K >= 0)
         y = ArrData((n,), fresh_sel("y", "o"), "o")
         o, ml = encoder_obj(st)
+        from pyvc import cex
+        E.default_concretize = lambda ev: {"family": "label_encoder", "fn": "transform", "sig": "counter-model", "y": cex.arr(ev, y),
+                                           "missing": cex.missing_flags(ev, y, MISSING, ml)}
         return {"args": [o, st.alloc(y)], "y": y, "ml": ml, "n": n}
 
     def post(E, ctx, outs):
@@ -111,6 +114,8 @@ def unit_inverse():
         st.assume(n >= 0, K >= 0)
         c = ArrData((n,), fresh_sel("codes", "i"), "i")
         o, ml = encoder_obj(st)
+        from pyvc import cex
+        E.default_concretize = lambda ev: {"family": "label_encoder", "fn": "inverse_transform", "sig": "counter-model", "codes": cex.arr(ev, c)}
         return {"args": [o, st.alloc(c)], "c": c, "ml": ml, "n": n}
 
     def post(E, ctx, outs):
